@@ -80,6 +80,7 @@ drv_xvar(int argc, char **argv)
         } else
                 for (int i = 0; i < hx_nkinds; i++)
                         klist[nk++] = hx_kinds[i];
+        hx_data_patterns = 1;
         hx_rng g;
         hx_seed(&g, seed);
         long nspec = 0, nrun = 0;
